@@ -754,7 +754,10 @@ int enumerator_index_enumred(enumtype * enumtype_value, enumerator * value, int 
 {
     if (value->expr_value)
     {
+        value->mark = 1;
         expr_enumred(value->expr_value, result);
+        value->mark = 0;
+
         if (value->expr_value->type == EXPR_INT)
         {
             value->index = value->expr_value->int_value;
